@@ -129,6 +129,7 @@ type bop struct {
 	cbM      int
 	le       int     // 0 omitted, 1 true, 2 false
 	sep      int     // join: 0 omitted, 1 ";"
+	mut      mutSpec // side effect of the callback (see bufsim_mut.go)
 	keyNum   float64 // boKey: the key, a Number ...
 	keyStr   string  // ... or a String
 	keyIsStr bool
@@ -439,6 +440,9 @@ func (m *bmodel) genOp(W *core.Track, step int) *bop {
 	case boSort, boToSorted:
 		o.v = pickTA()
 		o.sub = W.Draw(3)
+		if o.sub > 0 {
+			o.mut = m.genMut(W, o.v, true)
+		}
 		if o.kind == boToSorted {
 			newViewSlot()
 			newBufSlot()
@@ -467,6 +471,7 @@ func (m *bmodel) genOp(W *core.Track, step int) *bop {
 		o.v = pickTA()
 		o.sub = W.Draw(nIter)
 		o.cbB, o.cbM = W.Draw(4), 1+W.Draw(4)
+		o.mut = m.genMut(W, o.v, false)
 		switch o.sub {
 		case itMap:
 			o.cbM = W.Draw(3) // 0 identity, 1 constant, 2 negate
@@ -549,6 +554,9 @@ func (m *bmodel) genOp(W *core.Track, step int) *bop {
 			}
 		}
 		o.sub = W.Draw(3) // 0 no map fn, 1 identity, 2 negate
+		if !o.srcArr && o.sub > 0 {
+			o.mut = m.genMut(W, o.v2, false)
+		}
 		o.ctorHk = W.Draw(3) == 2
 		newViewSlot()
 		newBufSlot()
@@ -631,10 +639,12 @@ func bname(i int) string { return "B" + strconv.Itoa(i) }
 
 func (o *bop) cmpSrc() string {
 	switch o.sub {
-	case 1:
-		return fmt.Sprintf("CMP(%d,1)", o.site(slCmp))
-	case 2:
-		return fmt.Sprintf("CMP(%d,-1)", o.site(slCmp))
+	case 1, 2:
+		d, f := 3-2*o.sub, ""
+		if o.mut.kind == muDetach {
+			f = fmt.Sprintf(",function(){ DT(%d) }", o.mut.b)
+		}
+		return fmt.Sprintf("CMP(%d,%d%s)", o.site(slCmp), d, f)
 	}
 	return ""
 }
@@ -695,7 +705,7 @@ func (o *bop) render(m *bmodel) string {
 		return call(V, "with", o.argSrc(0), o.valSrc(o.val, slVal))
 	case boIter:
 		s := o.site(slCb)
-		pred := fmt.Sprintf("function(x,i){ return PV(%d,(i+%d)%%%d==0?1:0,x) }", s, o.cbB, o.cbM)
+		pred := fmt.Sprintf("function(x,i){ var r = PV(%d,(i+%d)%%%d==0?1:0,x);%s return r }", s, o.cbB, o.cbM, o.mutSrc())
 		switch o.sub {
 		case itMap:
 			ret := "x"
@@ -704,11 +714,11 @@ func (o *bop) render(m *bmodel) string {
 			} else if o.cbM == 2 {
 				ret = "-x"
 			}
-			return call(V, "map", fmt.Sprintf("function(x,i){ PV(%d,i,x); return %s }", s, ret))
+			return call(V, "map", fmt.Sprintf("function(x,i){ PV(%d,i,x);%s return %s }", s, o.mutSrc(), ret))
 		case itForEach:
-			return call(V, "forEach", fmt.Sprintf("function(x,i){ PV(%d,i,x) }", s))
+			return call(V, "forEach", fmt.Sprintf("function(x,i){ PV(%d,i,x);%s }", s, o.mutSrc()))
 		case itReduce, itReduceRight:
-			args := []string{fmt.Sprintf("function(a,x,i){ PV(%d,i,x); return x }", s)}
+			args := []string{fmt.Sprintf("function(a,x,i){ PV(%d,i,x);%s return x }", s, o.mutSrc())}
 			if o.hasVal {
 				args = append(args, o.val.v.src())
 			}
@@ -742,7 +752,7 @@ func (o *bop) render(m *bmodel) string {
 			if o.sub == 2 {
 				ret = "-x"
 			}
-			args = append(args, fmt.Sprintf("function(x,i){ PV(%d,i,x); return %s }", o.site(slCb), ret))
+			args = append(args, fmt.Sprintf("function(x,i){ PV(%d,i,x);%s return %s }", o.site(slCb), o.mutSrc(), ret))
 		}
 		if o.ctorHk {
 			return etName[o.et] + "Array.from.call(" + strings.Join(append([]string{o.ctorSrc()}, args...), ",") + ")"
@@ -807,6 +817,9 @@ func (o *bop) uses(m *bmodel) (views []int, bufs []int) {
 		views = append(views, o.v, o.v2)
 	default:
 		views = append(views, o.v)
+	}
+	if o.mut.kind == muAliasView || o.mut.kind == muDataView {
+		views = append(views, o.mut.w) // written by the callback
 	}
 	return
 }
